@@ -11,7 +11,8 @@ def cases(tier, seed):
             for pad in ("tail", "head", "both"):
                 for d in ((1, 2) if sim in ("abrm_nd", "blochsim") else (1,)):
                     yield dict(fn="rf.bloch", args=dict(sim=sim, Nt=12, flip=1.0, d=d, seed=seed, compose=True, pad=pad))
-    yield dict(fn="rf.bloch", args=dict(sim="abrm", Nt=16, balanced=True, seed=seed))
+    for Nt, flip in ((16, 1.0), (12, 0.3), (1, 2.0)):
+        yield dict(fn="rf.bloch", args=dict(sim="abrm", Nt=Nt, flip=flip, balanced=True, seed=seed))
     for n, peak in itertools.product((8, 16, 32), (0.3, 0.7, 0.95)):
         yield dict(fn="rf.slr", args=dict(n=n, peak=peak, seed=seed))
 
